@@ -45,6 +45,13 @@ if fid == 'F-07':
 if fid == 'F-33':
     r = parse(w['input']).rebuild()
     out(r != w['input'], 'rebuilt %r' % r)
-if fid == 'F-34':
-    pass
+if fid in ('F-14', 'F-15', 'F-16'):
+    from nix_manipulator.expressions.set import AttributeSet
+    from nix_manipulator.expressions.list import NixList
+    from nixdata import read_text, NotData
+    text = eval(w['python'])
+    want = {'F-14': [-1], 'F-15': {'a': 1e-07}, 'F-16': {'a': 'x\x00y'}}[fid]
+    try: back = read_text(text); still = back != want
+    except NotData: still = True
+    out(still, 'rendered %r' % text)
 out(False, 'no replayer for this finding')
